@@ -222,58 +222,33 @@ def r192(ctx, rep):
         if not (isinstance(d, ast.Constant) and d.value is None):
             rep.violated('R19.2', init, 'default failonerror', 'default is %s, expected None (so that petl.config.failonerror applies)'
                          % (norm(d) if d is not None else 'missing'), init.node)
-        try:
-            from ..dtable import table
-            atoms, rows = table(init.node.body, opaque=True)
-        except Unsupported as e:
-            rep.undecided('R19.2', init, 'failonerror resolution', str(e), init.node)
-            continue
-        # atoms of conditional expressions in the assigned value
-        extra = []
-        for s in ast.walk(init.node):
-            if isinstance(s, ast.IfExp):
-                for a in atoms_of(s.test):
-                    if a not in atoms and a not in extra:
-                        extra.append(a)
-        import itertools
+        # the stored policy is the argument, or petl.config.failonerror when (and only when) the argument is None --
+        # resolved at construction, whatever shape the None test has (conditional expression, if/else either way
+        # round, a small helper function)
+        from ..symres import NoneDefault, Sym
+        nd = NoneDefault(ctx, 'failonerror')
         ok = True
-        for val, oc in rows:
-            for bits in itertools.product([False, True], repeat=len(extra)):
-                v2 = dict(val)
-                v2.update(dict(zip(extra, bits)))
-                # re-simulate with the extended valuation
-                oc2 = simulate(init.node.body, v2, opaque=True)
-                if oc2.kind == 'raise':
-                    continue        # argument error path: no view is constructed
-                assigned = [s for s in oc2.effects if isinstance(s, ast.Assign) and
-                            any(norm(t) == 'self.failonerror' for t in s.targets)]
-                # local rebinding of failonerror before the store
-                rebinds = [s for s in oc2.effects if isinstance(s, ast.Assign) and
-                           any(isinstance(t, ast.Name) and t.id == 'failonerror' for t in s.targets)]
-                if not assigned:
-                    ok = False
-                    rep.violated('R19.2', init, 'self.failonerror', 'not set when %s' % v2, init.node)
-                    continue
-                expr = resolve_ifexp(assigned[-1].value, v2)
-                isnone = v2.get('failonerror is None')
-                if isnone is None:
-                    ok = False
-                    rep.violated('R19.2', init, 'self.failonerror',
-                                 'the constructor never tests `failonerror is None`: the config default cannot apply', init.node)
-                    break
-                want = 'config.failonerror' if isnone else 'failonerror'
-                got = norm(expr)
-                if rebinds:
-                    got = '%s after %s' % (got, '; '.join(norm(r) for r in rebinds))
-                if got != want:
-                    ok = False
-                    n += 1
-                    rep.violated('R19.2', init, 'self.failonerror when %s' % ', '.join('%s=%s' % kv for kv in sorted(v2.items())),
-                                 'self.failonerror = %s, expected %s: the policy no longer comes from %s'
-                                 % (got, want, 'petl.config.failonerror' if isnone else 'the argument'), assigned[-1])
-            else:
+        for scen, arg, want in (('failonerror=None', 'NONE', 'CONFIG'), ('failonerror given', 'USER', 'USER')):
+            env = {'failonerror': arg}
+            try:
+                envs = nd.run(init.node.body, env, {'self.failonerror', 'failonerror'}, init)
+                gots = sorted({e2.get('self.failonerror') or 'UNSET' for e2 in envs})
+                if 'UNSET' in gots:
+                    raise Sym('self.failonerror is not set by the constructor on some path')
+            except Sym as e:
+                ok = False
+                rep.undecided('R19.2', init, 'self.failonerror when %s' % scen, str(e), init.node)
                 continue
-            break
+            bad = [g for g in gots if g != want]
+            got = bad[0] if bad else want
+            if got != want:
+                ok = False
+                n += 1
+                rep.violated('R19.2', init, 'self.failonerror when %s' % scen,
+                             'self.failonerror becomes %s, expected %s: the policy no longer comes from %s' % (
+                                 {'NONE': 'None', 'CONFIG': 'petl.config.failonerror', 'USER': 'the argument', 'CONST': 'a fixed literal'}[got],
+                                 {'CONFIG': 'petl.config.failonerror', 'USER': 'the argument'}[want],
+                                 'petl.config.failonerror' if want == 'CONFIG' else 'the argument'), init.node)
         if ok:
             rep.held('R19.2', init, 'self.failonerror', 'None -> config.failonerror, anything else unchanged', init.node)
     # public functions
